@@ -63,6 +63,11 @@ esac
 case " $PROPS " in *" C18 "*|*" C18gen "*)
   /venv/bin/python "$ROOT/harness/translate/py2gallina_c18.py" 2> >(grep -v conda >&2) || echo "setup: translator rejected the source (coq/Gen/DataSetScalingGen.v is a non-compiling stub)" >&2 ;;
 esac
+# C05 owns coq/Gen/AccumGen.v (Integration.evaluate_area / area_preprocessing / process_removed_objects / get_result / reset_result / initialize of
+# sparseSpACE/GridOperation.py + the evaluate_area call sites; theorems in Props/C05gen.v)
+case " $PROPS " in *" C05 "*|*" C05gen "*)
+  /venv/bin/python "$ROOT/harness/translate/py2gallina_c05.py" 2> >(grep -v conda >&2) || echo "setup: translator rejected the source (coq/Gen/AccumGen.v is a non-compiling stub)" >&2 ;;
+esac
 cd "$ROOT/coq"
 find . -name '*.v' | sed 's|^\./||' | sort > .files.new
 if ! cmp -s .files.new .files || [ ! -f Makefile.coq ]; then
